@@ -77,6 +77,14 @@ fn simplifications(op: &Op) -> Vec<Op> {
                 out.push(Op::CloneWorld { panic_at: *panic_at, probe: None });
             }
         }
+        Op::CloneFromX { n, a, panic_at, dp } => {
+            if panic_at.is_some() || dp.is_some() {
+                out.push(Op::CloneFromX { n: *n, a: *a, panic_at: None, dp: None });
+            }
+            if a.is_some() {
+                out.push(Op::CloneFromX { n: *n, a: None, panic_at: *panic_at, dp: *dp });
+            }
+        }
         Op::DropWorld { panic_at } => {
             if panic_at.is_some() {
                 out.push(Op::DropWorld { panic_at: None });
